@@ -1,3 +1,28 @@
+use std::alloc::{GlobalAlloc, Layout, System};
+use std::sync::atomic::Ordering;
+
+/// counts heap allocations while `ALLOC_ARMED` is set (native stand-in for Kani's allocator stub, C17)
+struct Counting;
+unsafe impl GlobalAlloc for Counting {
+    unsafe fn alloc(&self, l: Layout) -> *mut u8 {
+        if cbv::generated::ALLOC_ARMED.load(Ordering::Relaxed) {
+            cbv::generated::ALLOC_COUNT.fetch_add(1, Ordering::Relaxed);
+        }
+        System.alloc(l)
+    }
+    unsafe fn dealloc(&self, p: *mut u8, l: Layout) {
+        System.dealloc(p, l)
+    }
+    unsafe fn realloc(&self, p: *mut u8, l: Layout, n: usize) -> *mut u8 {
+        if cbv::generated::ALLOC_ARMED.load(Ordering::Relaxed) {
+            cbv::generated::ALLOC_COUNT.fetch_add(1, Ordering::Relaxed);
+        }
+        System.realloc(p, l, n)
+    }
+}
+#[global_allocator]
+static A: Counting = Counting;
+
 fn main() {
     std::process::exit(cbv::generated::replay_main());
 }
